@@ -22,7 +22,7 @@ theorem unaryOp_shapeB {e op t : String} {s s' : St} (h0 : s.funcs = []) (h : un
   obtain ⟨rfl, rfl⟩ := h1
   split at h
   · simp [bind, varEvaluation, Tr.get, addLine, h0, pure] at h
-    exact ⟨_, by rw [← h.2]; exact ⟨rfl, rfl, h0.symm, rfl, rfl, rfl, rfl, rfl, rfl⟩⟩
+    exact ⟨_, by rw [← h.2]; exact ⟨rfl, rfl, h0.symm, rfl, rfl, rfl, rfl, rfl, rfl, by simp [plainB]⟩⟩
   · simp [Tr.fail] at h
 
 theorem binaryOp_shapeB {l op r t : String} {vt : ValueType} {s s' : St} (h0 : s.funcs = []) (h : binaryOp l op r vt s = .ok (t, s')) :
@@ -39,13 +39,13 @@ theorem binaryOp_shapeB {l op r t : String} {vt : ValueType} {s s' : St} (h0 : s
       simp only [hd] at h
       split at h
       · simp [bind, varEvaluation, Tr.get, addLine, h0, pure] at h
-        exact ⟨_, by rw [← h.2]; exact ⟨rfl, rfl, h0.symm, rfl, rfl, rfl, rfl, rfl, rfl⟩⟩
+        exact ⟨_, by rw [← h.2]; exact ⟨rfl, rfl, h0.symm, rfl, rfl, rfl, rfl, rfl, rfl, by simp [plainB]⟩⟩
       · simp [Tr.fail] at h
     | string =>
       simp only [hd] at h
       split at h
       · simp [bind, varAssignment, varEvaluation, Tr.get, addLine, h0, pure] at h
-        exact ⟨_, by rw [← h.2]; exact ⟨rfl, rfl, h0.symm, rfl, rfl, rfl, rfl, rfl, rfl⟩⟩
+        exact ⟨_, by rw [← h.2]; exact ⟨rfl, rfl, h0.symm, rfl, rfl, rfl, rfl, rfl, rfl, by simp [plainB]⟩⟩
       · simp [Tr.fail] at h
     | unknown => simp [hd, Tr.fail] at h
     | multiple => simp [hd, Tr.fail] at h
@@ -58,7 +58,7 @@ theorem comparisonOp_shapeB {l op r t : String} {vt : ValueType} {s s' : St} (h0
   split at h
   · simp [Tr.fail] at h
   · simp [bind, nextHelperVar, varEvaluation, Tr.get, addLine, h0, pure] at h
-    exact ⟨_, by rw [← h.2]; exact ⟨rfl, rfl, h0.symm, rfl, rfl, rfl, rfl, rfl, rfl⟩⟩
+    exact ⟨_, by rw [← h.2]; exact ⟨rfl, rfl, h0.symm, rfl, rfl, rfl, rfl, rfl, rfl, by simp [plainB]⟩⟩
 
 theorem logicalOp_shapeB {l op r t : String} {s s' : St} (h0 : s.funcs = []) (h : logicalOp l op r s = .ok (t, s')) :
     ∃ line, Adv s s' [line] 1 := by
@@ -67,13 +67,13 @@ theorem logicalOp_shapeB {l op r t : String} {s s' : St} (h0 : s.funcs = []) (h 
     rw [andOp_specB _ _ _ h0] at h
     injection h with h
     injection h with _ e2
-    exact ⟨_, by rw [← e2]; exact Adv.ofAdvB _ _ _⟩
+    exact ⟨_, by rw [← e2]; exact Adv.ofAdvB _ _ _ (by simp [plainB])⟩
   · by_cases h2 : op = "||"
     · subst h2
       rw [orOp_specB _ _ _ h0] at h
       injection h with h
       injection h with _ e2
-      exact ⟨_, by rw [← e2]; exact Adv.ofAdvB _ _ _⟩
+      exact ⟨_, by rw [← e2]; exact Adv.ofAdvB _ _ _ (by simp [plainB])⟩
     · simp [logicalOp, bind, nextHelperVar, Tr.get, h1, h2, Tr.fail] at h
 
 theorem exprB_shape : ∀ (e : Expr) (used : Bool) (s : St) (r : List String) (s' : St), Src.fragExpr e = true → s.funcs = [] →
